@@ -6,6 +6,7 @@
 //!     of the batch, is not the sender and has a known address; each is TargetedDelta{source = me, target = that replica,
 //!     deltas = exactly the batch's deltas owed to it IN BATCH ORDER, epoch = my epoch} - nobody extra, none starved;
 //!   - no router / router not selective / queue_deltas_broadcast: exactly one broadcast DeltaBatch{source = me, whole batch, epoch};
+//!   - batches of every size class (63 .. 4097 deltas, around powers of two) are handled alike;
 //!   - an empty batch queues nothing; messages queued earlier are untouched;
 //!   - capacity: afterwards the queue is (old ++ new) without its OLDEST len - MAX_OUTBOUND_QUEUE messages: the new
 //!     messages survive, only the oldest are dropped, the order of the rest is kept.
@@ -192,6 +193,17 @@ pub fn search(_pid: &str, oid: &str, seed: u64) -> Option<Found> {
         let mut batch = gen_batch(&mut rng, &pool, 6);
         for d in batch.iter_mut() { d.key = "same".into(); }
         if let Some(f) = check(&s, 1, &batch) { return Some(f); }
+    }
+    // large batches (no size class of a per-target share may be split, truncated or lose its remainder): sizes around powers of two
+    for n in [63usize, 64, 65, 127, 128, 129, 255, 256, 257, 511, 512, 513, 700, 1023, 1024, 1025, 1536, 2049, 4097] {
+        for (members, rf, me) in [(vec![1u64, 2, 3], 3usize, 1u64), (vec![1, 2, 3, 4, 5], 2, 3)] {
+            let addressed: Vec<u64> = members.iter().cloned().filter(|m| *m != me).collect();
+            for mode in [Mode::Selective, Mode::NoRouter] {
+                let s = Setup { members: members.clone(), vn: 16, rf, me, addressed: addressed.clone(), mode, epoch: 2 };
+                let batch = gen_batch(&mut rng, &pool, n);
+                if let Some(f) = check(&s, 1, &batch) { return Some(f); }
+            }
+        }
     }
     if !capacity_first { if let Some(f) = capacity(&mut rng) { return Some(f); } }
     // ---- seeded random
